@@ -36,6 +36,10 @@ func NewEntityLocal(device api.DeviceLocalInterface,
 
 var _ api.EntityLocalInterface = (*EntityLocal)(nil)
 
+// serializes the copy - modify - store cycles on the use case data of the node management
+// feature, which is shared by all entities of a device
+var muxUseCaseData sync.Mutex
+
 /* EntityLocalInterface */
 
 func (r *EntityLocal) Device() api.DeviceLocalInterface {
@@ -134,6 +138,9 @@ func (r *EntityLocal) AddUseCaseSupport(
 	useCaseAvailable bool,
 	scenarios []model.UseCaseScenarioSupportType,
 ) {
+	muxUseCaseData.Lock()
+	defer muxUseCaseData.Unlock()
+
 	nodeMgmt := r.device.NodeManagement()
 
 	data, err := LocalFeatureDataCopyOfType[*model.NodeManagementUseCaseDataType](nodeMgmt, model.FunctionTypeNodeManagementUseCaseData)
@@ -174,6 +181,9 @@ func (r *EntityLocal) SetUseCaseAvailability(
 	actor model.UseCaseActorType,
 	useCaseName model.UseCaseNameType,
 	available bool) {
+	muxUseCaseData.Lock()
+	defer muxUseCaseData.Unlock()
+
 	nodeMgmt := r.device.NodeManagement()
 
 	data, err := LocalFeatureDataCopyOfType[*model.NodeManagementUseCaseDataType](nodeMgmt, model.FunctionTypeNodeManagementUseCaseData)
@@ -196,6 +206,9 @@ func (r *EntityLocal) RemoveUseCaseSupport(
 	actor model.UseCaseActorType,
 	useCaseName model.UseCaseNameType,
 ) {
+	muxUseCaseData.Lock()
+	defer muxUseCaseData.Unlock()
+
 	nodeMgmt := r.device.NodeManagement()
 
 	data, err := LocalFeatureDataCopyOfType[*model.NodeManagementUseCaseDataType](nodeMgmt, model.FunctionTypeNodeManagementUseCaseData)
@@ -215,6 +228,9 @@ func (r *EntityLocal) RemoveUseCaseSupport(
 
 // Remove all usecases
 func (r *EntityLocal) RemoveAllUseCaseSupports() {
+	muxUseCaseData.Lock()
+	defer muxUseCaseData.Unlock()
+
 	nodeMgmt := r.device.NodeManagement()
 
 	data, err := LocalFeatureDataCopyOfType[*model.NodeManagementUseCaseDataType](nodeMgmt, model.FunctionTypeNodeManagementUseCaseData)
